@@ -493,6 +493,11 @@ def c05_cases(seed, tier):
                     first = "s:%s" % hx(head3 + body[:cut]) if cut and r.random() < 0.5 else ("s:%s" % hx(head3) + (",s:%s" % hx(body[:cut]) if cut else ""))
                     script = first + ",r,s:%s,s:%s,r" % (hx(body[cut:]), hx(probe))
                     out.append(("CONN max=4096 script=" + script, ["R405:0:e", "R200:0:" + hx(b"1,2")], fr[0] + "-hookdrop", fields))
+                    # … also when the request says `Expect: 100-continue` and the client sends the body anyway, later
+                    if r.random() < 0.5:
+                        head5 = head3.replace(b"\r\n", b"\r\n" + r.choice([b"Expect", b"expect", b"EXPECT"]) + b": 100-continue\r\n", 1)
+                        script5 = "s:%s,r,s:%s,s:%s,r" % (hx(head5), hx(body), hx(probe))
+                        out.append(("CONN max=4096 script=" + script5, ["R405:0:e", "R200:0:" + hx(b"1,2")], fr[0] + "-hookdrop-expect", fields))
     return out
 
 
@@ -557,9 +562,18 @@ def run_c05(o, ctx, tier, seed, replay=None):
                 o.violations.append({"case": line, "impl": a, "why": why})
     if replay is not None:
         cases = [(replay["case"], replay["expected"].split(","), "?", [])]
+    else:
+        # a body that stalls for longer than the socket's read time-out: the server no longer knows where the next request
+        # begins, whatever the framing, so nothing sent afterwards is answered
+        for line, exp, meta in G.stall_cases(rng_for(seed, "c05-stall"), 6 if t == "quick" else 60):
+            cases.append((line, exp, "stall", [(b"x", b"y"), (b"x", b"y")]))
     lines = [c[0] for c in cases]
     impl = C.run_sharded(ctx["kimpl"], lines, shards=min(C.NCPU, 16))
-    model = C.run_sharded(ctx["kmodel"], lines) if ctx.get("have_model") else None
+    model = None
+    if ctx.get("have_model"):
+        # (time-outs have no model counterpart: the model has no clock)
+        it = iter(C.run_sharded(ctx["kmodel"], [l for l in lines if " rto=" not in l]))
+        model = [a_ if " rto=" in l else next(it, "CRASH") for l, a_ in zip(lines, impl)]
     for i, ((c, exp, kind, fields), a) in enumerate(zip(cases, impl)):
         o.evaluations += 1
         o.count("rfc=" + kind)
